@@ -134,7 +134,14 @@ void h_read_ttl(void)
 /* ---- the log file: an arbitrary byte sequence LOG[0..LOG_N) ; b = a record boundary (read position at the top of an iteration) */
 #define U32AT(o) ((uint32_t)((uint32_t)LOG[(o)] | ((uint32_t)LOG[(o) + 1] << 8) | ((uint32_t)LOG[(o) + 2] << 16) | ((uint32_t)LOG[(o) + 3] << 24)))
 #define U64AT(o) ((uint64_t)U32AT(o) | ((uint64_t)U32AT((o) + 4) << 32))
+/* the reader's cap on len32: the named constant when the header has one (K6 repair), else the literal of the unrepaired text.  What the cap
+ * MUST admit is not taken from the code: lemma codec_roundtrip (RT1) demands that every record the writer can produce is accepted. */
+#ifdef MAX_LOG_RECORD_LENGTH
+#define REC_CAP ((uint32_t)(MAX_LOG_RECORD_LENGTH))
+#else
 #define REC_CAP ((uint32_t)(100 * 1024 * 1024))
+#endif
+#define VAL_CAP ((uint32_t)(100 * 1024 * 1024))            /* the reader's cap on vlen32 */
 #define AVAIL (LOG_N - b)
 #define HAVE_LEN (AVAIL >= 4)
 #define TL ((size_t)U32AT(b))                              /* declared record length (payload + crc) */
@@ -153,11 +160,11 @@ void h_read_ttl(void)
 #define FOFF (5 + KL)                                      /* payload offset of the first field after the key */
 /* S: vlen32 | val | crc */
 #define S_VL ((size_t)U32AT(P0 + FOFF))
-#define S_OK (FOFF + 4 <= TL && S_VL <= REC_CAP && FOFF + 4 + S_VL + 4 <= TL)
+#define S_OK (FOFF + 4 <= TL && S_VL <= VAL_CAP && FOFF + 4 + S_VL + 4 <= TL)
 /* E: exp64 | vlen32 | val | crc */
 #define E_EXP ((int64_t)U64AT(P0 + FOFF))
 #define E_VL ((size_t)U32AT(P0 + FOFF + 8))
-#define E_OK (FOFF + 12 <= TL && E_VL <= REC_CAP && FOFF + 12 + E_VL + 4 <= TL)
+#define E_OK (FOFF + 12 <= TL && E_VL <= VAL_CAP && FOFF + 12 + E_VL + 4 <= TL)
 /* X: exp64 | crc */
 #define X_OK (FOFF + 12 <= TL)
 /* the window's ceiling is the constant extracted from the header (a changed limit is seen); unit kv_expiry pins what it may be: every expiry
@@ -207,6 +214,8 @@ void h_load_expiry(void)
   __CPROVER_assert(IMPL(COMPLETE && crc_match && OPB == OP_X && KEY_OK && X_OK && E_EXP != IORA_LIMIT_int64_t_min && !PLAUSIBLE(E_EXP), UNCHANGED_KV && UNCHANGED_EX), "LE5 X record with an implausible expiry is ignored (does not make the key eternal)");
   __CPROVER_assert(IMPL(EX.gtouched && EX.has, KV.has && G_fromms_called && EX.val.expiry == G_fromms_ret && PLAUSIBLE(G_fromms_arg)), "LE6 an expiry is stored only for a present key and is the plausible exp64 of the record");
   __CPROVER_assert(IMPL(gk && OPB == OP_E && G_fromms_ret > now, KV.has && EX.has && EX.val.expiry == G_fromms_ret), "LE7 E record with a future expiry: key present with that expiry");
+  __CPROVER_assert(IMPL(COMPLETE && crc_match && OPB == OP_E && KEY_OK && E_OK && PLAUSIBLE(E_EXP) && G_skey_made && G_skey_last.is_g, !KV.has || (KV.gtouched && EX.gtouched && EX.has && G_fromms_called && EX.val.expiry == G_fromms_ret)),
+                   "REF1 a set-with-TTL record REPLACES whatever the key held before: afterwards the key is absent, or holds this record's value and expiry (never the earlier value or an earlier/no expiry)");
 }
 
 /* proof "load_ref2": TWO consecutive iterations on the ghost key against the clock-free reference replay ("the effect of the last operation
@@ -232,6 +241,29 @@ void h_load_ref2(void)
     __CPROVER_assert(IMPL(second_x && E_EXP == IORA_LIMIT_int64_t_min, KV.has && !EX.has),
                      "REF2b [E k v t1][X k no-expiry], t1 <= now: the key is present and eternal (persist() before the TTL ran out survives a restart)");
   }
+}
+
+/* ------------------------------------------------------------------ dropExpiredAfterLoad(): expiry is judged ONCE, after the whole replay (K5 repair)
+ * proof "drop_expired" (loop contract over the iteration of _expiry; any number of entries, any order, ghost key at any position) */
+void h_drop_expired(void)
+{
+  KVStore st;
+  st._kv.has = nondet_bool(); st._kv.val.n = nondet_size_t(); st._kv.touched = false; st._kv.gtouched = false;
+  st._expiry.has = nondet_bool(); st._expiry.val.expiry = nondet_i64(); st._expiry.val.timerId = nondet_u64(); st._expiry.touched = false; st._expiry.gtouched = false;
+  st._expiry.n = nondet_size_t(); st._expiry.gpos = nondet_size_t();
+  __CPROVER_assume(IMPL(st._expiry.has, st._kv.has && st._expiry.gpos < st._expiry.n));         /* expiry metadata only for present keys */
+  bool kv_has0 = st._kv.has; iora_vec kv_val0 = st._kv.val; bool ex_has0 = st._expiry.has; iora_tp ex_exp0 = st._expiry.val.expiry;
+  G_now_last = nondet_i64(); __CPROVER_assume(G_now_last >= 0); G_now_calls = 0; iora_exc = EXC_NONE; IORA_TRUE = 1;
+  KVStore_dropExpiredAfterLoad(&st);
+  iora_tp now = G_now_last;
+  IORA_CANARY("h_drop_expired: returns");
+  if (ex_has0 && !st._expiry.has) { IORA_CANARY("h_drop_expired: the ghost key was dropped"); }
+  if (ex_has0 && st._expiry.has) { IORA_CANARY("h_drop_expired: the ghost key was kept"); }
+  __CPROVER_assert(IMPL(ex_has0 && ex_exp0 <= now, !st._kv.has && !st._expiry.has), "DX1 after load no key whose expiry has passed is present (value and expiry removed)");
+  __CPROVER_assert(IMPL(ex_has0 && ex_exp0 > now, st._kv.has && st._expiry.has && st._expiry.val.expiry == ex_exp0), "DX2 a key with a later expiry is untouched");
+  __CPROVER_assert(IMPL(!ex_has0, st._kv.has == kv_has0 && !st._expiry.has), "DX3 a key without expiry is untouched");
+  __CPROVER_assert(st._kv.val.p == kv_val0.p && st._kv.val.n == kv_val0.n, "DX4 values are never changed");
+  __CPROVER_assert(G_now_calls == 1, "DX5 one clock reading for the whole sweep");
 }
 
 #ifdef IORA_SEARCH
